@@ -213,7 +213,7 @@ pub fn case(t: &mut Tape, ctx: &CaseCtx) -> CaseResult {
 
 pub fn run(mut run: Run) -> i32 {
     run.replay_committed(&case);
-    run.random("histories", &[], run.n(80_000, 1_500_000), 600, &case);
+    run.random("histories", &[], run.n(200_000, 2_000_000), 600, &case);
     run.finish(
         RULE,
         300,
